@@ -81,15 +81,15 @@ def gen_burst(rng):
     return "4096 ; %s ; %s" % (" ".join(ops), " | ".join(behs))
 
 
-def exhaustive_small():
-    """every program of 4 operations over 2 handles x 2 signals, followed by a fixed tail"""
+def exhaustive_small(n=3):
+    """every program of n operations over 2 handles x 2 signals, followed by a fixed tail"""
     alpha = []
     for h in (0, 1):
         alpha += ["S%d,10" % h, "O%d,10" % h, "S%d,12" % h, "O%d,12" % h, "T%d" % h]
     alpha += ["K10", "K12", "R0", "C1"]
     out = []
     import itertools
-    for p in itertools.product(alpha, repeat=3):
+    for p in itertools.product(alpha, repeat=n):
         out.append("4096 ; I0 I0 %s R0 K10 K12 R0 R0 ; T0 | " % " ".join(p))
     return out
 
@@ -121,6 +121,7 @@ class Mon:
         self.cb_stack = []          # handle whose callback is running, session at entry
         self.cb_count = 0
         self.run = None             # dict of the run in progress
+        self.quiet = {}             # loop -> the previous run of that loop had nothing to do
 
     def bad(self, key, text):
         self.findings.append((key, text))
@@ -165,6 +166,7 @@ class Mon:
 
     def on_raise(self, s, ret):
         w = self.watchers(s)
+        self.quiet = {}
         if ret != 0:
             return
         for h in w:
@@ -252,14 +254,16 @@ class Mon:
     def run_begin(self, l):
         hl = [h for h in range(len(self.q)) if self.loop[h] == l]
         self.run = {"l": l, "n0": {h: len(self.q[h]) for h in hl}, "popped": {},
-                    "total0": sum(len(self.q[h]) for h in hl), "cbs": 0}
+                    "total0": sum(len(self.q[h]) for h in hl), "cbs": 0, "closed": 0}
 
     def on_close_cb(self, h):
         if not self.closing[h] or self.closed[h]:
             self.bad(None, "unexpected close callback on handle %d" % h)
         self.closed[h] = True
         r = self.run
-        if r and not self.overflow and r["total0"] < 32:
+        if r:
+            r["closed"] += 1
+        if r and not self.overflow and r["total0"] < 8:
             arrived_now = len(self.q[h]) + r["popped"].get(h, 0) - r["n0"].get(h, 0)
             if arrived_now > 0:
                 self.bad(None, "close_cb of handle %d ran while a signal caught for it was still undispatched" % h)
@@ -267,18 +271,18 @@ class Mon:
     def run_end(self, l):
         r = self.run
         self.run = None
-        for h, n0 in r["n0"].items():
-            left = n0 - r["popped"].get(h, 0)      # messages present at the start that produced no callback
-            for _ in range(max(0, left)):
-                if not self.q[h]:
-                    break
+        quiet = r["cbs"] == 0 and not r["closed"]
+        twice = quiet and self.quiet.get(l, False)     # second run in a row with nothing to do: the pipe is empty
+        self.quiet[l] = quiet
+        if not twice:
+            return
+        for h in r["n0"]:
+            while self.q[h]:
                 ses, s = self.q[h].popleft()
                 if ses == self.sess[h] and self.sig[h] == s and not self.overflow:
                     self.bad(None, "started handle %d missed a delivered signal %d" % (h, s))
-        if r["cbs"] == 0:
-            for h in r["n0"]:
-                if self.closing[h] and not self.closed[h]:
-                    self.bad(None, "close_cb of handle %d was not called by a run that had nothing to dispatch" % h)
+            if self.closing[h] and not self.closed[h]:
+                self.bad(None, "close_cb of handle %d was not called although nothing is left to dispatch" % h)
 
     # ---- walking the token stream ------------------------------------------------
     def feed(self, toks):
@@ -392,9 +396,9 @@ def main():
     else:
         known_cases = [l.split("\t", 1)[1] for l in read("known.txt")]
         cases = known_cases + read("cases.txt")
-        cases += [gen_case(chk.rng) for _ in range(40000 if thorough else 5000)]
-        cases += [gen_burst(chk.rng) for _ in range(3000 if thorough else 300)]
-        cases += exhaustive_small() if not thorough else exhaustive_small()
+        cases += [gen_case(chk.rng) for _ in range(40000 if thorough else 3000)]
+        cases += [gen_burst(chk.rng) for _ in range(3000 if thorough else 200)]
+        cases += exhaustive_small(4 if thorough else 3)
     a, rc, err = vf.run_lines([harness], cases, shards=16)
     b, rc2, err2 = vf.run_lines(mcmd, cases, shards=16)
     name = "unix/signal.c = Model/Signal.v"
